@@ -241,3 +241,7 @@ enum ChannelEndState {
     Claimed { owner: ConnectionId, capacity: u32 },
     Closed,
 }
+
+#[cfg(kani)]
+#[path = "/verif/harness/broker/channel.rs"]
+mod verif;
